@@ -1,8 +1,13 @@
 /-
 C19 — Port multiplexing routes each connection to the right protocol, losing no byte.
-Property theorems only; helper lemmas live in IpcHub/Lemmas/Patricia.lean, Lemmas/Sniffer.lean.
+Property theorems only; helper lemmas live in IpcHub/Lemmas/Patricia.lean, Lemmas/Sniffer.lean,
+Lemmas/MuxClassify.lean.
+
+Model: Model/Patricia.lean (matcher.go), Model/Sniffer.lean (listener.go: sniffer, Conn,
+io.ReadFull, Listener.serve), Model/MuxInst.lean (service.listen's registrations from the
+regenerated facts).  Specification: Spec/MuxRoute.lean.
 -/
-import IpcHub.Model.MuxInst
+import IpcHub.Lemmas.MuxClassify
 namespace IpcHub.Props.C19
 open IpcHub.Patricia IpcHub.Sniffer IpcHub.MuxSpec IpcHub.MuxInst
 
@@ -17,7 +22,7 @@ theorem c19_source_facts :
     IpcHub.Gen.matchRTSPArgs.map ascii =
       ["OPTIONS * RTSP", "OPTIONS * rtsp", "OPTIONS rtsp://", "OPTIONS RTSP://"].map ascii ++ rtspOnlyMethods ∧
     IpcHub.Gen.matchPrefixUsesPrefixMode = true ∧ IpcHub.Gen.maxDepthPlus = 1 ∧
-    IpcHub.Gen.muxRegistrations = ["rtsp.MatchRTSP() -> s.rtsp.Serve", "listener.MatchHTTP() -> s.http.Serve"] ∧
+    IpcHub.Gen.muxRegistrations = [("rtsp.MatchRTSP()", "s.rtsp.Serve"), ("listener.MatchHTTP()", "s.http.Serve")] ∧
     IpcHub.Gen.sniffTimeoutSet = true ∧
     IpcHub.Gen.sniffTimeoutExpr = "time.Duration(int64(config.NetTimeout()) / 3)" ∧
     IpcHub.Gen.serveSequence =
@@ -34,5 +39,197 @@ theorem c19_source_facts :
     IpcHub.Gen.sniffingSwitch =
       ["startSniffing: m.sniffer.reset(true)", "startSniffing: return &m.sniffer", "doneSniffing: m.sniffer.reset(false)"] := by
   decide
+
+/-- The multiplexer of the current tree, as the model sees it: the RTSP matcher (the four
+    OPTIONS forms and the ten other RTSP methods) feeding the RTSP service is tried first,
+    the HTTP matcher feeding the HTTP service second; the sniff time-out is armed. -/
+theorem c19_registrations :
+    genRegs = some [(.rtsp, specials ++ rtspOnlyMethods), (.http, httpMethods)] ∧ genTimeoutSet = true := by
+  decide
+
+/-- `c19_patricia` (prefix mode, what `MatchPrefix` uses): for EVERY non-empty set of byte
+    strings and EVERY input, the tree built by `newPatriciaTree` / `newNode` / `splitPrefix`
+    and walked by `match` after `io.ReadFull` of `maxDepth` bytes accepts exactly the inputs
+    that start with one of the strings. -/
+theorem c19_patricia_prefix (S : List Bytes) (hS : S ≠ []) (b : Bytes) :
+    (newTree S).matchInput b true = S.any (fun s => s.isPrefixOf b) :=
+  matchInput_prefix S hS b
+
+/-- `c19_patricia` (exact mode, `patriciaTree.match`): it accepts exactly the members of the set. -/
+theorem c19_patricia_exact (S : List Bytes) (hS : S ≠ []) (b : Bytes) :
+    (newTree S).matchInput b false = S.contains b :=
+  matchInput_exact S hS b
+
+/-- `c19_replay`: for EVERY byte stream, EVERY adversarial segmentation / failure script of
+    the socket that never returns data together with an error (a TCP conn does not), ANY
+    number of sniffing passes each with ANY read sizes, and ANY read-buffer sizes `ks` of the
+    receiving service: nothing panics, and what the service has read so far, followed by what
+    is still buffered for it, followed by what the peer has not yet delivered, is exactly the
+    original stream — from its first byte, each byte once, in order. -/
+theorem c19_replay (s : Bytes) (evs : List Ev) (hne : noDataErr evs) (passes : List (List Nat)) (ks : List Nat) :
+    ∃ tr outs st evs', runOps { st := { rem := s }, evs := evs } (sniffOps passes) = .ok tr ∧
+      svcReads tr.st ks tr.evs [] = .ok (outs, st, evs') ∧
+      (outs.map (·.1)).flatten ++ pending st ++ st.rem = s :=
+  replay_no_loss s evs hne passes ks
+
+/-- progress part of `c19_replay`: while replayed bytes are pending, a service read of k ≥ 1
+    bytes returns the next `min k |pending|` of them with no error and without touching the
+    socket (whatever the socket would do) -/
+theorem c19_replay_progress (s : Bytes) (evs : List Ev) (hne : noDataErr evs) (passes : List (List Nat)) (tr : Trace)
+    (h : runOps { st := { rem := s }, evs := evs } (sniffOps passes) = .ok tr) (k : Nat) (hk : k ≥ 1)
+    (hp : pending tr.st ≠ []) :
+    ∃ r, connRead tr.st k tr.evs = .ok r ∧ r.bytes ≠ [] ∧ r.err = none ∧ r.evs = tr.evs ∧ r.st.rem = tr.st.rem ∧
+      r.bytes = (pending tr.st).take k :=
+  replay_progress s evs hne passes tr h k hk hp
+
+/-- last part of `c19_replay`: once the buffered part is drained, the read goes straight to
+    the connection and `Conn.Read` bypasses the sniffer from then on -/
+theorem c19_replay_then_direct (st : St) (k : Nat) (evs : List Ev) (hs : st.sniffing = false) (hd : st.direct = false)
+    (hcap : st.capNonzero = true) (hp : st.bufferSize ≤ st.bufferRead) :
+    connRead st k evs = .ok (srcRead { st with buffer := [], capNonzero := false, direct := true } k evs) :=
+  replay_drained_goes_direct st k evs hs hd hcap hp
+
+/-- `Listener.serve` never panics (the slice `s.buffer.Bytes()[s.bufferRead:s.bufferSize]`
+    stays in range) for every stream and every socket script, and every matcher pass sees
+    the stream from its first byte. -/
+theorem c19_serve_total (s : Bytes) (evs : List Ev) :
+    ∃ r, genServe s evs = .ok r ∧ (noDataErr evs → ∀ v ∈ r.views, v.isPrefixOf s = true) := by
+  obtain ⟨r, hr⟩ := serve_no_panic genTimeoutSet genTrees s evs
+  exact ⟨r, hr, fun hne => serve_views_are_prefixes genTimeoutSet genTrees s evs hne r hr⟩
+
+/-- Full-strength routing rule of the current tree, for EVERY byte stream and EVERY
+    segmentation of the client's writes (scripts that only deliver data): the connection goes
+    to the RTSP service when the stream starts with one of `MatchRTSP`'s strings, else to the
+    HTTP service when it starts with an HTTP method, else it is closed; exactly one of the
+    three.  A handed-over connection is open, its sniff deadline is cleared, and the whole
+    stream is still there for the service (buffered ++ undelivered = stream). -/
+theorem c19_route_by_prefix (s : Bytes) (evs : List Ev) (hc : cleanEvs evs) :
+    ∃ r, genServe s evs = .ok r ∧
+      svcOfRoute r.route =
+        (if (specials ++ rtspOnlyMethods).any (fun k => k.isPrefixOf s) then Proto.rtsp
+         else if httpMethods.any (fun k => k.isPrefixOf s) then Proto.http else Proto.none) ∧
+      (r.route = .closed ↔ svcOfRoute r.route = .none) ∧
+      (r.route ≠ .closed → r.st.closed = false ∧ r.st.deadline = false ∧ pending r.st ++ r.st.rem = s) ∧
+      (r.route = .closed → r.st.closed = true) := by
+  obtain ⟨r, hr, hroute, hopen, hclosed⟩ := serve_clean genTimeoutSet genTrees s evs hc
+  refine ⟨r, hr, ?_, ?_, ?_, hclosed⟩
+  · rw [hroute, genTrees_eq]
+    simp only [routeOf]
+    rw [matchInput_prefix _ (by decide), matchInput_prefix _ (by decide)]
+    split
+    · exact svcOfRoute_0
+    · split
+      · exact svcOfRoute_1
+      · exact svcOfRoute_closed
+  · rw [hroute, genTrees_eq]
+    simp only [routeOf]
+    split
+    · simp [svcOfRoute_0]
+    · split
+      · simp [svcOfRoute_1]
+      · simp [svcOfRoute_closed]
+  · intro hne
+    obtain ⟨h1, h2, _, _, h5⟩ := hopen hne
+    exact ⟨h1, h2 c19_registrations.2, h5⟩
+
+/-- `c19_classify`: for EVERY first line `method SP target SP version` followed by CR / LF /
+    nothing, with a blank-free method token that is a listed method or extends none, a
+    blank-free target, ANY version, ANY payload behind the line and ANY segmentation of the
+    client's writes: the connection reaches exactly the service the decision rule names —
+    RTSP for an RTSP method, for OPTIONS exactly when the target is `*` with an RTSP version
+    or an rtsp:// URL; HTTP for an HTTP method and every other OPTIONS; closed when the token
+    is no listed method — and a connection that is handed over is open, its sniff deadline
+    cleared, and the service finds the original stream from its first byte. -/
+theorem c19_classify (method target version rest : Bytes) (evs : List Ev) (hc : cleanEvs evs)
+    (hm : tokenOK method = true) (ht : tokenOK target = true) (hext : extendsListed method = false)
+    (hend : lineEnd rest) :
+    ∃ r, genServe (requestLine method target version ++ rest) evs = .ok r ∧
+      svcOfRoute r.route = classify method target version ∧
+      (r.route = .closed ↔ classify method target version = .none) ∧
+      (r.route ≠ .closed → r.st.closed = false ∧ r.st.deadline = false ∧
+        pending r.st ++ r.st.rem = requestLine method target version ++ rest) ∧
+      (r.route = .closed → r.st.closed = true) := by
+  obtain ⟨r, hr, hroute, hopen, hclosed⟩ := serve_clean genTimeoutSet genTrees _ evs hc
+  have hcls := routeOf_gen method target version rest hm ht hext hend
+  rw [← hroute] at hcls
+  obtain ⟨r', hr', _, hiff, hopen', _⟩ := c19_route_by_prefix (requestLine method target version ++ rest) evs hc
+  have : r' = r := by unfold genServe at hr'; rw [hr] at hr'; cases hr'; rfl
+  subst this
+  exact ⟨r', hr, hcls, by rw [← hcls]; exact hiff, hopen', hclosed⟩
+
+/-- arbitrary first bytes that begin with none of the registered strings: closed -/
+theorem c19_not_a_request_line_closed (s : Bytes) (evs : List Ev) (hc : cleanEvs evs)
+    (h : ∀ k ∈ specials ++ rtspOnlyMethods ++ httpMethods, k.isPrefixOf s = false) :
+    ∃ r, genServe s evs = .ok r ∧ r.route = .closed ∧ r.st.closed = true := by
+  obtain ⟨r, hr, hsvc, hiff, _, hclosed⟩ := c19_route_by_prefix s evs hc
+  have h1 : (specials ++ rtspOnlyMethods).any (fun k => k.isPrefixOf s) = false := by
+    rw [List.any_eq_false]; intro k hk
+    have hk' : k ∈ specials ++ rtspOnlyMethods ++ httpMethods := List.mem_append_left _ hk
+    rw [h k hk']; simp
+  have h2 : httpMethods.any (fun k => k.isPrefixOf s) = false := by
+    rw [List.any_eq_false]; intro k hk
+    have hk' : k ∈ specials ++ rtspOnlyMethods ++ httpMethods := List.mem_append_right _ hk
+    rw [h k hk']; simp
+  rw [h1, h2] at hsvc
+  have hcl : r.route = .closed := hiff.mpr (by simpa using hsvc)
+  exact ⟨r, hr, hcl, hclosed hcl⟩
+
+/-- a connection that stays silent until the sniff time-out fires is closed, whatever the peer
+    would have sent later -/
+theorem c19_silent_closed (s : Bytes) (evs : List Ev) :
+    ∃ r, genServe s (Ev.fail .timeout :: evs) = .ok r ∧ r.route = .closed ∧ r.st.closed = true := by
+  have hroot : ∀ t ∈ genTrees, t.matchBuf [] true = false := by
+    rw [genTrees_eq]
+    intro t ht
+    simp only [List.mem_cons, List.mem_nil_iff, or_false] at ht
+    rcases ht with ht | ht <;> subst ht
+    · show matchNode (newNode _ _) [] true = false
+      rw [matchNode_newNode_prefix _ _ (by decide) (by decide)]; decide
+    · show matchNode (newNode _ _) [] true = false
+      rw [matchNode_newNode_prefix _ _ (by decide) (by decide)]; decide
+  have := serve_silent_timeout_closed genTrees s evs hroot
+  unfold genServe
+  rw [c19_registrations.2]
+  exact this
+
+/-- Why `extendsListed method = false` is a hypothesis of `c19_classify`: the matchers compare
+    prefixes, so a token that extends a listed method is routed by that prefix — `PLAYX /
+    HTTP/1.1` reaches the RTSP service and `GETX rtsp://h/ RTSP/1.0` the HTTP service, while
+    the decision rule over whole tokens names no service for either. -/
+theorem c19_extension_token_routed_by_prefix :
+    (∀ evs, cleanEvs evs → ∃ r, genServe (ascii "PLAYX / HTTP/1.1\r\n\r\n") evs = .ok r ∧ svcOfRoute r.route = .rtsp) ∧
+    classify (ascii "PLAYX") (ascii "/") (ascii "HTTP/1.1") = .none ∧
+    (∀ evs, cleanEvs evs → ∃ r, genServe (ascii "GETX rtsp://h/ RTSP/1.0\r\n\r\n") evs = .ok r ∧ svcOfRoute r.route = .http) ∧
+    classify (ascii "GETX") (ascii "rtsp://h/") (ascii "RTSP/1.0") = .none := by
+  refine ⟨fun evs hc => ?_, by decide, fun evs hc => ?_, by decide⟩
+  · obtain ⟨r, hr, hs, _⟩ := c19_route_by_prefix (ascii "PLAYX / HTTP/1.1\r\n\r\n") evs hc
+    exact ⟨r, hr, by rw [hs]; decide⟩
+  · obtain ⟨r, hr, hs, _⟩ := c19_route_by_prefix (ascii "GETX rtsp://h/ RTSP/1.0\r\n\r\n") evs hc
+    exact ⟨r, hr, by rw [hs]; decide⟩
+
+/-- The decision rule on the forms named in the property statement (tests of the
+    specification, not the unbounded claim). -/
+theorem c19_rule_examples :
+    classify (ascii "OPTIONS") (ascii "*") (ascii "RTSP/1.0") = .rtsp ∧
+    classify (ascii "OPTIONS") (ascii "*") (ascii "HTTP/1.1") = .http ∧
+    classify (ascii "OPTIONS") (ascii "rtsp://cam/live") (ascii "RTSP/1.0") = .rtsp ∧
+    classify (ascii "OPTIONS") (ascii "/index.html") (ascii "HTTP/1.1") = .http ∧
+    classify (ascii "DESCRIBE") (ascii "rtsp://cam/live") (ascii "RTSP/1.0") = .rtsp ∧
+    classify (ascii "GET_PARAMETER") (ascii "rtsp://cam/live") (ascii "RTSP/1.0") = .rtsp ∧
+    classify (ascii "GET") (ascii "/") (ascii "HTTP/1.1") = .http ∧
+    classify (ascii "BREW") (ascii "/") (ascii "HTTP/1.1") = .none := by
+  decide
+
+/-- non-vacuity: the hypotheses of `c19_classify` are met by ordinary request lines, a script
+    of three segments is clean, and `c19_replay`'s script hypothesis by a script with a
+    time-out in it -/
+example : tokenOK (ascii "OPTIONS") = true ∧ tokenOK (ascii "rtsp://cam/live") = true ∧
+    extendsListed (ascii "OPTIONS") = false ∧ extendsListed (ascii "BREW") = false ∧
+    lineEnd (ascii "\r\nCSeq: 1\r\n\r\n") := by
+  refine ⟨by decide, by decide, by decide, by decide, Or.inr ⟨13, _, rfl, Or.inl rfl⟩⟩
+example : cleanEvs [.deliver 3, .deliver 1, .deliver 4000] := by
+  intro e he; simp at he; rcases he with h | h | h <;> exact ⟨_, h⟩
+example : noDataErr [.deliver 3, .fail .timeout, .deliver 7] := by
+  intro e he n x; simp at he; rcases he with h | h | h <;> subst h <;> simp
 
 end IpcHub.Props.C19
